@@ -6,7 +6,7 @@
    theorems state what happens whenever the callback completes; the Examples are the failing histories. *)
 From Coq Require Import String List NArith Lia Bool.
 From Ax Require Import Lib.Bytes Lib.Mvx Lib.SolAbi Lib.Keccak Model.Check Model.Env Model.Gateway Model.TokenManager Model.Its
-     Proofs.GatewayMsgs Proofs.TMFacts Proofs.ItsFacts Proofs.ItsWorld Proofs.ItsMore Gen.Generated.
+     Proofs.GatewayMsgs Proofs.TMFacts Proofs.ItsFacts Proofs.ItsWorld Proofs.ItsMore Proofs.ItsOutbound Proofs.ItsCustody Gen.Generated.
 Import ListNotations.
 Open Scope N_scope.
 
@@ -37,9 +37,59 @@ Section C17.
     call_contract H w c dchain daddr payload gtok gas = Some (w', ev) -> gas <> 0 ->
     transfer (iw_led w) (ic_self c) (i_gas (iw_its w)) gtok gas = Some (iw_led w').
   Proof. intros w c dchain daddr payload gtok gas w' ev R NZ. apply call_contract_spec in R as (_ & _ & _ & _ & _ & _ & _ & K). destruct (K NZ) as (T & _). exact T. Qed.
+
+  (* ---------- the custody equation of the service at the level of the world (Proofs/ItsCustody.v) ----------
+     S is the service's address, x ANY ledger token.  sb = the service's balance of x; HP = what the pending
+     asynchronous work holds there: a pending lookup (metadata registration, remote deployment) holds the EGLD
+     attached for cross-chain gas, a delivery in flight holds the transfer amount until it is delivered. *)
+  Variable verify : bytes -> bytes -> bytes -> bool.
+  Variable S x : bytes.
+
+  (* every one of the 19 synchronous endpoints, successful or not, with its attached payments: the service's
+     balance moves by exactly what the pending work created by this very transaction holds *)
+  Theorem c17_sync_custody : forall w o c, sync_ctx o = Some c -> sep S w c -> no_egld_alias (ic_value c) -> op_no_gift S w o ->
+    sb S x (fst (istep H verify w o)) + HP x w = sb S x w + HP x (fst (istep H verify w o)).
+  Proof. exact (sync_custody H verify S x). Qed.
+  (* hence a call that leaves no new pending work behind leaves the service with none of the attached value *)
+  Theorem c17_sync_nothing_kept : forall w o c, sync_ctx o = Some c -> sep S w c -> no_egld_alias (ic_value c) -> op_no_gift S w o ->
+    iw_pend (fst (istep H verify w o)) = iw_pend w -> sb S x (fst (istep H verify w o)) = sb S x w.
+  Proof. exact (sync_nothing_kept H verify S x). Qed.
+  (* the destination call of a transfer with data: on success exactly the parked amount leaves *)
+  Theorem c17_deliver_custody : forall w id ok p, find_ip id (iw_pend w) = Some p ->
+    (forall chain mid src ph tid tok amount dest oc os data, ip_kind p = PTransfer chain mid src ph tid tok amount dest oc os data -> dest <> S) ->
+    sb S x (fst (istep H verify w (IDeliver S id ok))) + HP x w = sb S x w + HP x (fst (istep H verify w (IDeliver S id ok))).
+  Proof. exact (deliver_custody H verify S x). Qed.
+  (* its callback, and the callback of the token-properties lookup: if the callback SUCCEEDS nothing is stranded; if it
+     FAILS the pending work is consumed and exactly what it held stays in the service — these failures are the
+     recorded findings F-C08-1 and F-C17-1..4 (the fifth, the empty destination chain, is excluded by props_sep) *)
+  Theorem c17_callback_custody : forall w c id p, ic_self c = S -> (forall tid, tm_addr (iw_its w) tid <> S) ->
+    NoDup (map ip_id (iw_pend w)) -> find_ip id (iw_pend w) = Some p ->
+    let r := istep H verify w (ICallback c id) in
+    (io_ok (snd r) = true -> sb S x (fst r) + HP x w = sb S x w + HP x (fst r)) /\
+    (io_ok (snd r) = false -> fst r = w \/ (sb S x (fst r) = sb S x w /\ HP x w = HP x (fst r) + held x p)).
+  Proof. exact (callback_custody H verify S x). Qed.
+  Theorem c17_props_custody : forall w c id res p, ic_self c = S -> i_gas (iw_its w) <> S -> (forall tid, tm_addr (iw_its w) tid <> S) ->
+    NoDup (map ip_id (iw_pend w)) -> find_ip id (iw_pend w) = Some p -> props_sep S w p ->
+    let r := istep H verify w (IProps c id res) in
+    (io_ok (snd r) = true -> sb S x (fst r) + HP x w = sb S x w + HP x (fst r)) /\
+    (io_ok (snd r) = false -> fst r = w \/ (sb S x (fst r) = sb S x w /\ HP x w = HP x (fst r) + held x p)).
+  Proof. exact (props_custody H verify S x). Qed.
 End C17.
 Print Assumptions c17_metadata_callback.
 Print Assumptions c17_remote_callback.
+Print Assumptions c17_sync_custody.
+Print Assumptions c17_callback_custody.
+Print Assumptions c17_props_custody.
+
+(* non-vacuity of the custody equation: registerTokenMetadata with 777 EGLD in the world of Proofs/ItsMore.v:
+   the premises hold, the service's EGLD balance grows by 777 and the new lookup holds exactly 777 *)
+Example c17_sync_custody_nonvacuous :
+  let w := Findings.w08 in let c := Findings.cx Findings.user {| cv_egld := 777; cv_esdt := [] |} in
+  let w0 := {| iw_gw := iw_gw w; iw_its := iw_its w; iw_tms := iw_tms w; iw_led := ((Findings.user, EGLD), 1000) :: iw_led w; iw_pend := []; iw_next := 0 |} in
+  let o := IRegisterMetadata c Findings.tok in
+  sync_ctx o = Some c /\ io_ok (snd (istep keccak256 Findings.vf w0 o)) = true /\
+  sb Findings.self EGLD (fst (istep keccak256 Findings.vf w0 o)) = 777 /\ HP EGLD (fst (istep keccak256 Findings.vf w0 o)) = 777 /\ HP EGLD w0 = 0.
+Proof. vm_compute. repeat split; reflexivity. Qed.
 
 (* known findings, on the model *)
 Example c17_refuted_hub_unset :
@@ -64,3 +114,5 @@ Example c17_error_refunds :
   io_ok (snd r) = true /\ bal (iw_led (fst r)) Findings.self EGLD = 0 /\ bal (iw_led (fst r)) Findings.user EGLD = 333.
 Proof. exact Findings.c17_error_refunds. Qed.
 Check c17_metadata_callback.
+Check c17_sync_custody.
+Check c17_props_custody.
